@@ -11,10 +11,15 @@
   * `C15_padding_never_creates_normal`: the PaddingSent arm queues a *padding* TunnelSent, or
     nothing (padding replaced by an already queued normal packet), or pops one queued packet and
     re-queues that same packet re-flagged: normal packets are never created or duplicated there.
-  The global counting statement (per-side totals) is checked by the monitor on every generated
-  run; its proof needs the multiset invariant over the heap model (see the final report).
+  * `C15_conservation`: for a parsed trace, on each side the number of normal TunnelSent events
+    the main loop processes never exceeds that side's share of the input, and equals it when the
+    run ends because all normal packets were processed (proved through a counting invariant over
+    the bit-faithful heap model: `push` adds exactly the pushed element, `pop` removes exactly
+    the returned one);
+  * `C15_conservation_trace`: the same statement on the returned unfiltered trace, in the
+    vocabulary of the monitor (`normalSentCount`, `share`).
 -/
-import MbVerif.Proofs.SimNet
+import MbVerif.Proofs.SimConserve
 import MbVerif.Spec.C15
 
 namespace Mb.C15
@@ -93,6 +98,69 @@ theorem C15_padding_never_creates_normal (next : SimEvent) (sq sq' : SimQueue) (
   obtain ⟨⟨sq1, net1⟩, h1, h2⟩ := h
   cases h2
   exact netPaddingSent_spec h1
+
+/-- **Conservation of normal packets**, for every machine set, trace, delay, argument record and
+    oracle: per side, processed normal TunnelSent events ≤ the side's share of the input trace,
+    with equality when the run stops because all normal packets were processed. -/
+theorem C15_conservation (budget : Nat) (mc ms : List Machine) (trace : List TraceLine) (delay : Nat) (a : Args) (orc : σ) :
+    (∀ c, (simAdvanced ρ budget mc ms (parseTrace trace delay) a orc).stream.countP (sentNormal c) ≤ shareOf trace c) ∧
+    ((simAdvanced ρ budget mc ms (parseTrace trace delay) a orc).stop = .noNormal →
+      ∀ c, (simAdvanced ρ budget mc ms (parseTrace trace delay) a orc).stream.countP (sentNormal c) = shareOf trace c) := by
+  unfold simAdvanced
+  have hpt := parseTrace_spec trace delay
+  cases hi : initState ρ mc ms (parseTrace trace delay) a orc with
+  | error f => simp
+  | ok st =>
+    simp only []
+    have hsq := initState_sq ρ hi
+    have hw : st.sq.WF := by rw [hsq]; exact hpt.1
+    have hc := loop_conserve ρ a (loopFuel a budget) st 0 0 hw
+    rw [finish_stream, finish_stop]
+    constructor
+    · intro c
+      have := hc.1 c
+      rw [hsq, hpt.2 c] at this
+      exact this
+    · intro hstop c
+      obtain ⟨stf, hf, hnn⟩ := loop_noNormal ρ a (loopFuel a budget) st 0 0 hstop
+      have h2 := hc.2 stf hf
+      have h3 := h2.2 c
+      rw [noNormal_pending_zero stf.sq h2.1 hnn c, hsq, hpt.2 c] at h3
+      omega
+
+/-- the same on the returned trace of an unfiltered run that did not fault, in the monitor's
+    vocabulary -/
+theorem C15_conservation_trace (budget : Nat) (mc ms : List Machine) (trace : List TraceLine) (delay : Nat) (a : Args)
+    (orc : σ) (hoc : a.onlyClientEvents = false) (hon : a.onlyNetworkActivity = false)
+    (hok : ∀ f, (simAdvanced ρ budget mc ms (parseTrace trace delay) a orc).stop ≠ .fault f) (c : Bool) :
+    normalSentCount (simAdvanced ρ budget mc ms (parseTrace trace delay) a orc).trace c ≤ share trace c ∧
+    ((simAdvanced ρ budget mc ms (parseTrace trace delay) a orc).stop = .noNormal →
+      normalSentCount (simAdvanced ρ budget mc ms (parseTrace trace delay) a orc).trace c = share trace c) := by
+  have hcons := C15_conservation ρ budget mc ms trace delay a orc
+  have hid := C15_final_sort_identity ρ budget mc ms (parseTrace trace delay) a orc hok
+  have hkeep : ∀ l : List StepRec, l.filter a.keep = l := by
+    intro l
+    apply List.filter_eq_self.2
+    intro r _
+    simp [Args.keep, keep, hoc, hon]
+  have hcount : ∀ l : List StepRec, normalSentCount (l.map (·.ev)) c = l.countP (sentNormal c) := by
+    intro l
+    induction l with
+    | nil => rfl
+    | cons r rs ih =>
+      simp only [normalSentCount, List.map_cons, List.filter_cons, List.countP_cons] at ih ⊢
+      by_cases h : sentNormal c r = true
+      · have h' : (r.ev.client == c && r.ev.event == TEvent.tunnelSent && !r.ev.containsPadding) = true := by
+          simpa [sentNormal, isTS] using h
+        simp [h, h', ih]
+      · have h1 : sentNormal c r = false := by simpa using h
+        have h' : (r.ev.client == c && r.ev.event == TEvent.tunnelSent && !r.ev.containsPadding) = false := by
+          simpa [sentNormal, isTS] using h1
+        simp [h1, h', ih]
+  have hshare : share trace c = shareOf trace c := by
+    simp [share, shareOf, List.countP_eq_length_filter]
+  rw [hid, hkeep, hcount, hshare]
+  exact ⟨hcons.1 c, fun h => hcons.2 h c⟩
 
 /-- non-vacuity of `C15_final_sort_identity`'s hypothesis and of the ordering theorem: the
     concrete two-packet run ends without a fault after 7 iterations -/
